@@ -36,6 +36,7 @@ pub fn build_scenario(rng: &Rng, ov: &Value, fams: &[Family], n_stmts: usize, sa
         max_files: 4,
         same_name_dirs16,
         row_cap: ov_usize(ov, "row_cap"),
+        keyword_table: ov.get("keyword_table").and_then(|v| v.as_bool()).unwrap_or(false),
     };
     let world = world::build(&mut wr, &params);
     let mut sr = rng.fork(2);
